@@ -32,9 +32,7 @@ class Atom:
         self.args = args
         self.flags = frozenset(flags)
         self.meta = meta or {}
-        deps = set()
-        if kind == "sym":
-            deps.add(id)
+        deps = {id}
         for a in args:
             deps |= key_deps(a)
         self.deps = frozenset(deps)
@@ -123,9 +121,20 @@ def key_str(k) -> str:
     return repr(k)
 
 
+_ATOM_STR = {}
+
+
 def atom_str(a: Atom) -> str:
     if a.kind == "sym":
         return a.name
+    r = _ATOM_STR.get(a.id)
+    if r is None or r[0] is not a:
+        r = (a, _atom_str(a))
+        _ATOM_STR[a.id] = r
+    return r[1]
+
+
+def _atom_str(a: Atom) -> str:
     if a.kind == "fn":
         return "%s(%s)" % (a.name, ", ".join(key_str(x) for x in a.args))
     def short(x):
@@ -789,3 +798,57 @@ def rat_str(x: Rat, limit=12) -> str:
     if x.den.is_const() and x.den.const_value() == 1:
         return n
     return "(%s)/(%s)" % (n, poly_str(x.den, limit))
+
+
+# --------------------------------------------------------------------------
+# general rewriting (renaming of paths, role permutation, step-0 instantiation)
+# --------------------------------------------------------------------------
+def rewrite(x: Rat, atom_fn=None, key_fn=None, _cache=None) -> Rat:
+    """Homomorphic rewrite.  atom_fn(atom) -> Rat | None decides the image of an
+    atom (None: rebuild it from rewritten arguments); key_fn(tuple) -> tuple | None
+    rewrites non-numeric keys (object paths ...) inside argument lists."""
+    if _cache is None:
+        _cache = {}
+
+    def rk(k):
+        if isinstance(k, Rat):
+            return rewrite(k, atom_fn, key_fn, _cache)
+        if isinstance(k, tuple):
+            if key_fn is not None:
+                r = key_fn(k)
+                if r is not None:
+                    return r
+            return tuple(rk(e) for e in k)
+        return k
+
+    def img(a: Atom) -> Rat:
+        if a.id in _cache:
+            return _cache[a.id]
+        r = atom_fn(a) if atom_fn is not None else None
+        if r is None:
+            if a.kind == "sym":
+                r = Rat.atom(a)
+            else:
+                r = rebuild_atom(a, [rk(k) for k in a.args])
+        _cache[a.id] = r
+        return r
+
+    return transform(x, img, {})
+
+
+def rename_syms(x: Rat, fn) -> Rat:
+    """Rename symbol atoms and object paths with fn(str) -> str."""
+
+    def atom_fn(a):
+        if a.kind == "sym":
+            n = fn(a.name)
+            if n != a.name:
+                return Rat.atom(T.sym(n, a.flags, a.meta))
+        return None
+
+    def key_fn(k):
+        if k and k[0] in ("obj", "list", "maybe", "str?") and isinstance(k[-1], str):
+            return k[:-1] + (fn(k[-1]),)
+        return None
+
+    return rewrite(x, atom_fn, key_fn)
